@@ -175,6 +175,8 @@ pub struct C11 {
     /// scripts with `(fold #canon i ... (call P ("s" "visit") [i]) ...)`: the iterations are the elements of the
     /// canonical value, whoever runs the fold and whatever reached the stream later
     canon_fold: bool,
+    /// the folded canonical value is a stream map: a fold over it yields one pair per distinct key
+    canon_fold_is_map: bool,
     pub canon_fold_states: u64,
     pub canon_fold_quiescent: u64,
 }
@@ -182,12 +184,16 @@ pub struct C11 {
 impl C11 {
     pub fn new(ast: &I) -> C11 {
         let mut canon_fold = false;
+        let mut canon_fold_is_map = false;
         let mut ncanon = 0;
         script::walk(ast, &mut |x| {
             if matches!(x, I::Canon { .. }) {
                 ncanon += 1;
             }
-            if let I::Fold { iterable: Arg::Canon(_) | Arg::CanonMap(_), iter, body, .. } = x {
+            if let I::Fold { iterable: it @ (Arg::Canon(_) | Arg::CanonMap(_)), iter, body, .. } = x {
+                if matches!(it, Arg::CanonMap(_)) {
+                    canon_fold_is_map = true;
+                }
                 script::walk(body, &mut |y| {
                     if let I::Call { func, args, .. } = y {
                         if func == "visit" && args.first() == Some(&Arg::Var(iter.clone())) {
@@ -197,7 +203,7 @@ impl C11 {
                 });
             }
         });
-        C11 { cc: CanonCtx::new(ast), first_canons: 0, multi: 0, states_with_canon: 0, nontrivial_states: 0, canon_fold: canon_fold && ncanon == 1, canon_fold_states: 0, canon_fold_quiescent: 0 }
+        C11 { cc: CanonCtx::new(ast), first_canons: 0, multi: 0, states_with_canon: 0, nontrivial_states: 0, canon_fold: canon_fold && ncanon == 1, canon_fold_is_map, canon_fold_states: 0, canon_fold_quiescent: 0 }
     }
 
     fn canon_fold_state(&mut self, cx: &mut Cx, st: &State, info: &StateInfo) -> Vec<Viol> {
@@ -249,7 +255,19 @@ impl C11 {
         }
         if info.quiescent {
             self.canon_fold_quiescent += 1;
-            if vis != eset {
+            let complete = if self.canon_fold_is_map {
+                // one visit per distinct key (which of the pairs of a key is shown is the map's business)
+                let key_of = |t: &String| serde_json::from_str::<Value>(t).ok().map(|v| v["key"].to_string()).unwrap_or_default();
+                let mut per_key: BTreeMap<String, u32> = BTreeMap::new();
+                for (v, n) in &vis {
+                    *per_key.entry(key_of(v)).or_insert(0) += n;
+                }
+                let keys: BTreeSet<String> = eset.keys().map(key_of).collect();
+                per_key.keys().cloned().collect::<BTreeSet<_>>() == keys && per_key.values().all(|n| *n == 1)
+            } else {
+                vis == eset
+            };
+            if !complete {
                 out.push(viol("C11/fold-over-canon-does-not-visit-every-element", format!("after everything was delivered the visits are {vis:?}; the canonical value holds {elems:?}")));
             }
         }
